@@ -64,6 +64,9 @@ pub enum TOp {
     CloneRename { tree: usize },
     /// `Node::eval()` of a shared tree (implicit fresh context)
     EvalImplicit { tree: usize },
+    /// call the panicking user function `p` (through an expression) with an argument for which it
+    /// panics (13 / 14) or not, then evaluate an ordinary call; panics are caught by the harness
+    Panicky { arg: i64 },
     /// build a context on this thread (function table chosen by `variant`) and keep it; after the
     /// run all contexts built by all threads are moved to the main thread and probed there
     BuildContext { variant: usize },
@@ -90,6 +93,7 @@ impl TOp {
             TOp::CloneRename { tree } => Json::obj().with("op", Json::s("clone_rename")).with("tree", Json::u(*tree as u64)),
             TOp::EvalImplicit { tree } => Json::obj().with("op", Json::s("eval_implicit")).with("tree", Json::u(*tree as u64)),
             TOp::BuildContext { variant } => Json::obj().with("op", Json::s("build_context")).with("variant", Json::u(*variant as u64)),
+            TOp::Panicky { arg } => Json::obj().with("op", Json::s("panicky")).with("arg", Json::i(*arg)),
         }
     }
 
@@ -115,6 +119,7 @@ impl TOp {
             "clone_rename" => TOp::CloneRename { tree: j.u64_field("tree")? as usize },
             "eval_implicit" => TOp::EvalImplicit { tree: j.u64_field("tree")? as usize },
             "build_context" => TOp::BuildContext { variant: j.u64_field("variant")? as usize },
+            "panicky" => TOp::Panicky { arg: j.get("arg").and_then(|a| a.as_i64()).unwrap_or(0) },
             other => return Err(format!("unknown thread op {}", other)),
         })
     }
@@ -230,6 +235,17 @@ fn pure_function(name: &'static str) -> Function<DefaultNumericTypes> {
     Function::new(move |arg: &V| Ok(sentinel(name, arg)))
 }
 
+/// `p`: identity, except that it panics (message carries the argument) for Int 13 and Int 14 -
+/// a user function that fails hard for particular inputs. The harness catches the unwind; other
+/// evaluations, in this or other threads, must be unaffected by it.
+fn panicking_function() -> Function<DefaultNumericTypes> {
+    Function::new(move |arg: &V| match arg {
+        Value::Int(13) => panic!("sentinel panic 13"),
+        Value::Int(14) => panic!("sentinel panic 14"),
+        other => Ok(other.clone()),
+    })
+}
+
 fn build_ctx(setup: &Setup, disabled: bool) -> Ctx {
     let mut ctx = Ctx::new();
     for (n, v) in &setup.vars {
@@ -240,6 +256,7 @@ fn build_ctx(setup: &Setup, disabled: bool) -> Ctx {
             ctx.set_function(name.to_string(), pure_function(name)).expect("setup");
         }
     }
+    ctx.set_function("p".to_string(), panicking_function()).expect("setup");
     ctx.set_builtin_functions_disabled(disabled).expect("setup");
     ctx
 }
@@ -447,6 +464,32 @@ fn exec_inner(op: &TOp, sh: &Shared) -> String {
                 None => return "no such tree".into(),
             };
             cr(&t.eval())
+        },
+        TOp::Panicky { arg } => {
+            let call = verifsim::prog::Expr::Bin(
+                verifsim::prog::Bin::Add,
+                Box::new(verifsim::prog::Expr::Call(
+                    "p".to_string(),
+                    Some(Box::new(verifsim::prog::Expr::Lit(Value::Int(*arg)))),
+                )),
+                Box::new(verifsim::prog::Expr::Lit(Value::Int(1))),
+            )
+            .assemble(true);
+            let after = verifsim::prog::Expr::Call(
+                "p".to_string(),
+                Some(Box::new(verifsim::prog::Expr::Lit(Value::Int(5)))),
+            )
+            .assemble(true);
+            let ctx = &sh.ctx_main;
+            let first = match std::panic::catch_unwind(std::panic::AssertUnwindSafe(|| call.eval_with_context(ctx))) {
+                Ok(r) => cr(&r),
+                Err(_) => format!("PANIC: {}", verifsim::env::last_panic().split(" at ").next().unwrap_or("")),
+            };
+            let second = match std::panic::catch_unwind(std::panic::AssertUnwindSafe(|| after.eval_with_context(ctx))) {
+                Ok(r) => cr(&r),
+                Err(_) => format!("PANIC: {}", verifsim::env::last_panic().split(" at ").next().unwrap_or("")),
+            };
+            format!("{} then {}", first, second)
         },
         TOp::BuildContext { variant } => {
             let ctx = build_variant_context(*variant);
@@ -761,10 +804,16 @@ pub fn miri_workload(seed: u64) -> Workload {
         },
         2 => {
             // first concurrent use of fresh trees with constant sub-expressions; parse + evaluate
+            w.setup.vars.push((
+                "s".to_string(),
+                Value::String("0123456789012345678901234567890123456789".into()),
+            ));
             w.extra_tree_sources = vec![
                 "(1 + 2) * (3 + 4) + a".to_string(),
-                "(\"x\" + \"y\") + c + (\"p\" + \"q\")".to_string(),
-                "f(g(h(1)), k(2), (2 * 3, 4 + 5)) ".to_string(),
+                // long strings (80+ bytes after concatenation)
+                "(s + s) + c + (\"p\" + s)".to_string(),
+                // numerically equal int and float arguments to type-sensitive functions
+                "(g(1), g(1.0), k(2), k(2.0), g(1), g(1.0))".to_string(),
             ];
             w.sources = vec!["(1 + 2) * (3 + 4) + a".to_string(), "a + b * 2 - len(c)".to_string()];
             for t in 0..n_threads {
@@ -772,6 +821,7 @@ pub fn miri_workload(seed: u64) -> Workload {
                 ops.push(TOp::EvalTree { tree: 1 + (t % 2), ctx: CtxSel::Main, entry: 0 });
                 ops.push(if t % 2 == 0 { TOp::EvalStr { src: 0, ctx: CtxSel::Main } } else { TOp::Iter { tree: 2 } });
                 ops.push(TOp::EvalTree { tree: 0, ctx: CtxSel::NoBuiltins, entry: 1 });
+                ops.push(TOp::EvalTree { tree: 2 - (t % 2), ctx: CtxSel::Main, entry: 0 });
                 w.threads.push(ops);
             }
         },
@@ -785,15 +835,18 @@ pub fn miri_workload(seed: u64) -> Workload {
             ];
             for t in 0..n_threads {
                 let mut ops = Vec::new();
+                // every thread builds contexts first (same setup routine, different tables): after
+                // the run they are all probed on the main thread
+                ops.push(TOp::BuildContext { variant: t });
+                ops.push(TOp::BuildContext { variant: t + 3 });
                 if t % 2 == 0 {
                     ops.push(TOp::PrivateScript { programs: vec![0, 1, 2] });
-                    ops.push(TOp::EvalTree { tree: 0, ctx: CtxSel::Main, entry: 1 });
+                    ops.push(TOp::Panicky { arg: 13 });
                     ops.push(TOp::FreshScript { programs: vec![0, 2] });
                 } else {
                     ops.push(TOp::EvalTree { tree: 0, ctx: CtxSel::Main, entry: 0 });
+                    ops.push(TOp::Panicky { arg: 14 });
                     ops.push(TOp::EvalTree { tree: 1, ctx: CtxSel::Main, entry: 0 });
-                    ops.push(TOp::Render { tree: 0 });
-                    ops.push(TOp::CloneRename { tree: 0 });
                 }
                 w.threads.push(ops);
             }
@@ -823,24 +876,50 @@ pub fn miri_scenario(seed: u64) -> i32 {
     // (lazily initialised process-global state); the sequential baseline is computed afterwards
     // on the independent copy.
     let cold_first = seed % 2 == 1;
-    let mut expected = if cold_first { Vec::new() } else { sequential(&w, &reference) };
+    let (mut expected, mut expected_probes) = if cold_first {
+        (Vec::new(), Vec::new())
+    } else {
+        sequential_with_contexts(&w, &reference)
+    };
     let sh = match build_shared(&w) {
         Ok(s) => Arc::new(s),
         Err(_) => return 0,
     };
     let mut results: Vec<Vec<String>> = Vec::new();
+    let mut built: Vec<Ctx> = Vec::new();
     std::thread::scope(|scope| {
         let mut handles = Vec::new();
         for ops in w.threads.iter() {
             let sh = sh.clone();
-            handles.push(scope.spawn(move || ops.iter().map(|o| exec(o, &sh)).collect::<Vec<String>>()));
+            handles.push(scope.spawn(move || {
+                let _ = take_built();
+                let r = ops.iter().map(|o| exec(o, &sh)).collect::<Vec<String>>();
+                (r, take_built())
+            }));
         }
         for h in handles {
-            results.push(h.join().unwrap_or_else(|_| vec!["PANIC".to_string()]));
+            match h.join() {
+                Ok((r, b)) => {
+                    results.push(r);
+                    built.extend(b);
+                },
+                Err(_) => results.push(vec!["PANIC".to_string()]),
+            }
         }
     });
+    let probes = probe_contexts(&built);
     if cold_first {
-        expected = sequential(&w, &reference);
+        let (e, p) = sequential_with_contexts(&w, &reference);
+        expected = e;
+        expected_probes = p;
+    }
+    if probes != expected_probes {
+        let k = probes.iter().zip(expected_probes.iter()).position(|(a, b)| a != b).unwrap_or(0);
+        println!(
+            "VIOLATION property=C15 class=contexts-built-on-other-threads-differ engine=miri workload_seed={} family={} expected={:?} actual={:?}",
+            seed, seed % 4, expected_probes.get(k), probes.get(k)
+        );
+        return 1;
     }
     for t in 0..w.threads.len() {
         for k in 0..expected[t].len() {
@@ -969,10 +1048,10 @@ pub fn gen_workload_sized(rng: &mut Rng, small: bool) -> Workload {
                 16 | 17 => TOp::FreshScript { programs: pick_programs(rng) },
                 18 => TOp::CloneRename { tree: rng.usize_below(n_trees) },
                 _ => {
-                    if rng.percent(50) {
-                        TOp::EvalImplicit { tree: rng.usize_below(n_trees) }
-                    } else {
-                        TOp::BuildContext { variant: rng.usize_below(6) }
+                    match rng.below(5) {
+                        0 | 1 => TOp::EvalImplicit { tree: rng.usize_below(n_trees) },
+                        2 | 3 => TOp::BuildContext { variant: rng.usize_below(6) },
+                        _ => TOp::Panicky { arg: *rng.pick(&[13i64, 14, 13, 2]) },
                     }
                 },
             };
